@@ -227,9 +227,13 @@ def decide(prop, r, tier, seed, meta):
             new_fail.append(f)
     # obligations / discharged
     failed_obs = {f["ob"] for f in failures if f["ob"]}
+    known_ob_ids = {f["ob"] for f, _ in []}
     n_obl = len(obs) + len(panic) + len(calls)
     n_failed = len({(f["ob"], f["site_line"], f["kind"]) for f in new_fail})
-    n_known_clauses = len({(f["ob"], f["site_line"], f["kind"]) for f, _ in known_hit})
+    # clauses split off as recorded findings are reported separately and are not counted among the claimed obligations
+    known_obs = {f["ob"] for f, _ in known_hit if f["ob"] and any(o["id"] == f["ob"] for o in obs)}
+    n_obl -= len(known_obs)
+    n_known_clauses = 0
     # vacuity: silent probes in functions of this property => contradictory contract
     vac_bad = [k for k in r.vac_silent if any(k == f["key"] and prop in f["tags"] for f in em.functions)]
     code = 0
